@@ -70,7 +70,7 @@ func runCSVReader(c *core.Ctx, name string, recs [][]string) (lines []*eval.Stru
 			args = append(args, eval.Opaque{Why: "csv input"})
 		}
 	}
-	v, err := ev.CallFunc(fn, args...)
+	v, err := ev.CallFuncBound(fn, args...)
 	if err != nil {
 		if strings.Contains(err.Error(), "out of range") {
 			return nil, false, false, err.Error(), ""
